@@ -830,6 +830,242 @@ def check_ext_run(case, rec):
     return fails
 
 
+# ------------------------------------------------------------------------------------------------ updater thread vs link changes
+
+HEADER_R = 'From CF Require Import Common.Bytes C04.Trace C04.Race.\nOpen Scope Z_scope.\n'
+
+
+def _pat_z(b):
+    return -1 if b is None else int.from_bytes(bytes(b) + b'\x01', 'little')
+
+
+def gen_race_case(rng):
+    """tables of 2-3 sessions (all uint8, persistent; indices shifted / permuted, names removed / added) and a policy for the
+    schedule; the schedule itself is drawn while the case runs (it depends on what is enabled)"""
+    nn = rng.randint(3, 5)
+    tables = []
+    for k in range(rng.randint(2, 3)):
+        present = [n for n in range(nn) if rng.random() < 0.85] or [0]
+        ids = rng.sample(range(0, 7), len(present))
+        toc = [[ids[j], n, n % 3, 8, 0, 1] for j, n in enumerate(present)]
+        tables.append({'toc': toc, 'fixed_groups': 1, 'cb_param': [], 'cb_group': [], 'cb_all': [],
+                       'dev_init': {str(e[0]): [rng.randrange(256)] for e in toc},
+                       'dev_default': {str(e[0]): [rng.randrange(256)] for e in toc}, 'dev_enoent': []})
+    return {'kind': 'race', 'tables': tables, 'fine': rng.random() < 0.4, 'sched': None,
+            'gen': {'hold': rng.choice(['queued', 'A_locked', 'A_free', 'S', 'awaiting', 'random']),
+                    'between': rng.random() < 0.3, 'len': rng.randint(12, 34)}}
+
+
+def _race_op(rng, cfg, tag):
+    e = rng.choice(cfg['toc'])
+    r = rng.random()
+    if r < 0.45:
+        return ['set', e[1], ['i', rng.randrange(256), False]]
+    if r < 0.75:
+        return ['read', e[1]]
+    return ['misc', rng.choice([3, 4, 5, 6]), e[1], next(tag)]
+
+
+def execute_race(case, rng=None):
+    """events: ['I', op] API call (main thread: none of them blocks), ['U'] updater thread step, ['R'] deliver next packet,
+    ['X'] link down (real disconnected callbacks), ['C'] link up to the next table (real connection_requested callbacks)"""
+    import logging
+    from fakes.c04_sched import Harness, HarnessError, find_packet
+    logging.disable(logging.CRITICAL)
+    tables = [_cfg_for_harness(t) for t in case['tables']]
+    steps, sched, problems = [], [], []
+    h = Harness(tables[0], fine=bool(case.get('fine')))
+    try:
+        def ready():
+            h.cf.param.is_updated = True          # the value download of connection setup is not part of these cases
+            h.cf.param._initialized.set()
+        ready()
+        h.drain()
+        st = {'sess': 0, 'up': True, 'tbl': 0, 'seq_of': {}, 'sess_of': {}, 'next': 0, 'held': -1, 'wire': [], 'fly': [],
+              'pos_at_down': {}, 'held_at_down': {}}
+        tag = iter(range(1, 1000))
+
+        def enabled():
+            ev = []
+            if st['up']:
+                ev.append('I')
+                if h.dev.out:
+                    ev.append('R')
+                ev.append('X')
+            elif st['tbl'] + 1 < len(tables):
+                ev.append('C')
+            if h.updater_enabled():
+                ev.append('U')
+            return ev
+
+        def snap():
+            u = h.updater
+            pos = h.updater_pos()
+            return {'link': int(st['up']), 'pc': {'G': 0, 'A': 1, 'S': 2}.get(pos, 9), 'held': st['held'] if pos in 'AS' else -1,
+                    'lock': int(u.wait_lock.l), 'pat': _pat_z(u._lock_pattern),
+                    'queue': [st['seq_of'].get(id(find_packet(x)), -2) for x in u.request_queue.pending()],
+                    'wire': list(st['wire']), 'fly': list(st['fly']), 'sess': st['sess'],
+                    'dead': [inf['exc'] for inf in h.sched.info.values() if inf['done'] and inf['exc']]}
+
+        def do(ev):
+            model = None
+            h.last_put = None
+            lock_before = int(h.updater.wait_lock.l)
+            delivered = None
+            if ev[0] == 'I':
+                h.op(tuple(ev[1][:2]) + ((_py_value(ev[1][2], 8),) if ev[1][0] == 'set' else tuple(ev[1][2:])))()
+                if h.last_put is not None:
+                    pk = h.last_put
+                    st['seq_of'][id(pk)] = st['next']
+                    st['sess_of'][st['next']] = st['sess']
+                    st['keep'] = st.get('keep', []) + [pk]
+                    st['next'] += 1
+                    model = 'UIssue %d' % _pat_z(pk.data[:3] if pk.channel == 3 else pk.data[:2])
+            elif ev[0] == 'U':
+                if h.updater_pos() == 'G':
+                    st['held'] = st['seq_of'].get(id(find_packet(h.updater.request_queue.pending()[0])), -2)
+                h.last_tx = None
+                h.link.last_tx = None
+                h.ev_updater()
+                if h.link.last_tx is not None:
+                    q = st['seq_of'].get(id(h.link.last_tx), -2)
+                    st['wire'].append([st['sess'], q])
+                    st['fly'].append(q)
+                model = 'UStep'
+            elif ev[0] == 'R':
+                delivered = st['fly'].pop(0) if st['fly'] else -2
+                h.ev_deliver()
+                model = 'UReply'
+            elif ev[0] == 'X':
+                st['pos_at_down'][st['sess']] = h.updater_pos()
+                st['held_at_down'][st['sess']] = st['held'] if h.updater_pos() in 'AS' else -1
+                h.link_down()
+                st['up'] = False
+                st['sess'] += 1
+                st['fly'] = []
+                model = 'UDown'
+            else:
+                st['tbl'] += 1
+                h.link_up(tables[st['tbl']])
+                ready()
+                st['up'] = True
+                model = 'UUp'
+            sn = snap()
+            steps.append({'ev': ev, 'model': model, 'obs': h.drain(), 'snap': sn, 'delivered': delivered, 'lock_before': lock_before})
+            if sn['dead']:
+                problems.append({'what': 'a thread died', 'detail': sn['dead']})
+
+        if case.get('sched') is not None:
+            for ev in case['sched']:
+                if ev[0] not in enabled():
+                    problems.append({'what': 'scheduled step not enabled', 'step': ev, 'index': len(steps)})
+                    break
+                do(ev)
+                sched.append(ev)
+        else:
+            gen = case['gen']
+
+            def go(ev):
+                if ev[0] in enabled():
+                    do(ev)
+                    sched.append(ev)
+                    return True
+                return False
+            cfg0 = case['tables'][0]
+            hold = gen['hold']
+            if hold != 'random':
+                # bring the updater to the chosen point of its loop with a request of session 0, then drop the link
+                if hold in ('A_locked', 'awaiting'):
+                    go(['I', _race_op(rng, cfg0, tag)]), go(['U']), go(['U'])
+                    if case.get('fine'):
+                        go(['U'])
+                if hold != 'awaiting':
+                    go(['I', _race_op(rng, cfg0, tag)])
+                if hold in ('A_locked', 'A_free', 'S'):
+                    go(['U'])
+                if hold == 'S' and case.get('fine'):
+                    go(['U'])
+                if rng.random() < 0.5:
+                    go(['I', _race_op(rng, cfg0, tag)])
+                go(['X'])
+                if gen['between']:
+                    go(['U'])
+                go(['C'])
+            while len(steps) < gen['len']:
+                en = enabled()
+                if not en:
+                    break
+                w = {'I': 3, 'U': 4, 'R': 3, 'X': 1, 'C': 6}
+                ev = rng.choices(en, [w[x] for x in en])[0]
+                go(['I', _race_op(rng, case['tables'][st['tbl']], tag)] if ev == 'I' else [ev])
+            k = 0
+            while k < 60 and (h.updater_enabled() or (st['up'] and h.dev.out)):
+                go(['U'] if h.updater_enabled() else ['R'])
+                k += 1
+    except HarnessError as e:
+        problems.append({'what': 'harness error', 'detail': str(e)})
+    finally:
+        h.close()
+        logging.disable(logging.NOTSET)
+    return {'steps': steps, 'sched': sched, 'problems': problems}
+
+
+def race_trace(rec):
+    out = []
+    for st in rec['steps']:
+        if st['model'] is None:
+            continue
+        sn = st['snap']
+        out += [sn['link'], sn['pc'], sn['held'], sn['lock'], sn['pat'], len(sn['queue'])] + sn['queue']
+        out += [len(sn['wire'])] + [x for w in sn['wire'] for x in w] + [len(sn['fly'])] + sn['fly']
+    return out
+
+
+def race_term(case, rec):
+    return 'utrace (mkRC true %s) u0 [%s]' % (coqrun.coq_bool(bool(case.get('fine'))),
+                                              '; '.join(st['model'] for st in rec['steps'] if st['model'] is not None))
+
+
+def check_race(case, rec):
+    """no request issued in one session on the wire of another; no reply of an earlier session releases the lock; wire order =
+    issue order"""
+    fails = []
+    sess_of, nxt = {}, 0
+    pos_at_down, held_at_down = {}, {}
+    last_seq = -1
+    for si, st in enumerate(rec['steps']):
+        sn = st['snap']
+        if st['ev'][0] == 'I' and st['model'] is not None:
+            sess_of[nxt] = sn['sess']
+            nxt += 1
+        if st['ev'][0] == 'X':
+            prev = rec['steps'][si - 1]['snap'] if si else None
+            pos_at_down[sn['sess'] - 1] = prev['pc'] if prev else 0
+            held_at_down[sn['sess'] - 1] = prev['held'] if prev else -1
+        if st['ev'][0] == 'U' and any(o[0] == 'tx' for o in st['obs']):
+            ws, q = sn['wire'][-1]
+            tx = next(o for o in st['obs'] if o[0] == 'tx')
+            if sess_of.get(q) != ws:
+                k = sess_of.get(q)
+                window = pos_at_down.get(k) == 2 and held_at_down.get(k) == q
+                fails.append({'class': 'earlier_session_request_sent_in_send_window' if window else 'earlier_session_request_sent',
+                              'step_index': si, 'expected': 'dropped', 'observed': {'channel': tx[1], 'data': list(tx[2]), 'issued_in_session': k,
+                                                                                     'sent_in_session': ws},
+                              'detail': 'request #%s, built from the table of session %s, was sent on the link of session %s (the updater '
+                                        'thread was %s when the link dropped)' % (q, k, ws, {0: 'idle', 1: 'holding it at wait_lock.acquire()',
+                                                                                         2: 'holding it at the send lock'}.get(pos_at_down.get(k), '?'))})
+            if q <= last_seq:
+                fails.append({'class': 'wire_order_differs_from_issue_order', 'step_index': si, 'expected': None, 'observed': sn['wire'],
+                              'detail': 'request #%s went out after request #%s' % (q, last_seq)})
+            last_seq = max(last_seq, q)
+        if st['ev'][0] == 'R' and st['delivered'] is not None and st['delivered'] >= 0:
+            if sess_of.get(st['delivered']) != sn['sess'] and st['lock_before'] == 1 and sn['lock'] == 0:
+                fails.append({'class': 'earlier_session_reply_released_lock', 'step_index': si, 'expected': None, 'observed': None,
+                              'detail': 'the reply to request #%s of session %s released the updater lock in session %s'
+                                        % (st['delivered'], sess_of.get(st['delivered']), sn['sess'])})
+    return fails
+
+
 # ------------------------------------------------------------------------------------------------ corpus
 
 def corpus_cases():
@@ -846,6 +1082,7 @@ def corpus_cases():
 _runs = {}
 _xruns = {}
 _sruns = {}
+_rruns = {}
 
 
 def _executions(ctx):
@@ -856,6 +1093,7 @@ def _executions(ctx):
     runs = []
     xruns = []
     sruns = []
+    rruns = []
     for name, case in corpus_cases():
         case = dict(case)
         if case.get('kind') == 'ext':
@@ -863,6 +1101,9 @@ def _executions(ctx):
             continue
         if case.get('kind') == 'sess':
             sruns.append((case, execute_sess(case, ctx.rng), 'corpus:' + name))
+            continue
+        if case.get('kind') == 'race':
+            rruns.append((case, execute_race(case, ctx.rng), 'corpus:' + name))
             continue
         rec = execute(case, ctx.rng)
         runs.append((case, rec, 'corpus:' + name))
@@ -880,6 +1121,12 @@ def _executions(ctx):
         case['sessions'] = case['sessions'][:len(recs)]
         sruns.append((case, recs, 'gen'))
     _sruns[key] = sruns
+    for k in range(ctx.scale(100, 2000)):
+        case = gen_race_case(ctx.rng)
+        rec = execute_race(case, ctx.rng)
+        case['sched'] = rec['sched']
+        rruns.append((case, rec, 'gen'))
+    _rruns[key] = rruns
     n = ctx.scale(400, 8000)
     for k in range(n):
         case = gen_case(ctx.rng, small=(k % 4 == 0))
@@ -1051,6 +1298,27 @@ def tie(ctx):
             k = next((i for i in range(min(len(mv), len(se_[bi]))) if mv[i] != se_[bi][i]), min(len(mv), len(se_[bi])))
             d.update({'offset': k, 'model': mv[max(0, k - 6):k + 12], 'impl': se_[bi][max(0, k - 6):k + 12]})
         dis.append(d)
+    # --- the updater thread across link changes
+    rruns = _rruns[(ctx.seed, ctx.tier)]
+    rt_, re_ = [], []
+    for case, rec, src in rruns:
+        for p in rec['problems']:
+            dis.append({'what': 'implementation run (updater thread vs link changes): ' + p['what'], 'case': case, 'detail': p})
+        rt_.append(race_term(case, rec))
+        re_.append(race_trace(rec))
+        if any(st['ev'][0] == 'X' and st['snap']['pc'] != 0 for st in rec['steps']):
+            nontriv += 1
+        dist['race_steps'] = dist.get('race_steps', 0) + len(rec['steps'])
+        for st in rec['steps']:
+            if st['ev'][0] == 'X':
+                k = 'link_down_with_updater_at_' + {0: 'get', 1: 'wait_lock', 2: 'send_lock'}.get(st['snap']['pc'], '?')
+                dist[k] = dist.get(k, 0) + 1
+    for bi, mv in compare_cases(rt_, re_, 'c04r', max(8, len(rt_) // 16 + 1), HEADER_R):
+        d = {'what': 'updater thread vs link changes: model (repaired updater) and implementation differ', 'case': rruns[bi][0]}
+        if mv is not None:
+            k = next((i for i in range(min(len(mv), len(re_[bi]))) if mv[i] != re_[bi][i]), min(len(mv), len(re_[bi])))
+            d.update({'offset': k, 'model': mv[max(0, k - 6):k + 12], 'impl': re_[bi][max(0, k - 6):k + 12]})
+        dis.append(d)
     # --- set_value alone, both index widths
     t2, e2, samples = _set_value_direct(ctx)
     for bi, mv in compare_cases(t2, e2, 'c04b', max(8, len(t2) // 16 + 1)):
@@ -1059,7 +1327,7 @@ def tie(ctx):
     if ex:
         samples.append({'threads': ex[0]['threads'], 'schedule_head': ex[1]['sched'][:12], 'steps': len(ex[1]['steps'])})
     return {
-        'evaluations': len(terms) + len(t2) + len(xt) + nsess,
+        'evaluations': len(terms) + len(t2) + len(xt) + nsess + len(rt_),
         'distinct_nontrivial': nontriv,
         'rule': 'event-list cases: >= 2 user threads actually issued, >= 2 requests pending at some point (queue + in hand + '
                 'on the wire) and >= 3 packets sent; distinct by digest of the full observation/state trace. After every step '
@@ -1390,6 +1658,24 @@ def oracle(ctx, deep=False):
                                               for sc, rec in zip(case['sessions'], recs)]}
             fails.append({'class': f['class'], 'case': c, 'expected': f.get('expected'), 'observed': f.get('observed'),
                           'detail': '%s (step %s; source %s)' % (f['detail'], f.get('step_index'), src)})
+    rruns = list(_rruns[(ctx.seed, ctx.tier)])
+    if deep:
+        for k in range(ctx.scale(200, 800)):
+            case = gen_race_case(ctx.rng)
+            rec = execute_race(case, ctx.rng)
+            case['sched'] = rec['sched']
+            rruns.append((case, rec, 'deep'))
+    order = sorted(range(len(rruns)), key=lambda i: (0 if rruns[i][2].startswith('corpus') else 1, len(rruns[i][1]['steps'])))
+    for i in order:
+        case, rec, src = rruns[i]
+        n += 1
+        for f in check_race(case, rec):
+            if f['class'] in seen:
+                continue
+            seen.add(f['class'])
+            c = {'kind': 'race', 'tables': case['tables'], 'fine': case.get('fine'), 'sched': rec['sched']}
+            fails.append({'class': f['class'], 'case': c, 'expected': f.get('expected'), 'observed': f.get('observed'),
+                          'detail': '%s (step %s; source %s)' % (f['detail'], f.get('step_index'), src)})
     fails += _direct_float_overflow()
     return {'evaluations': n + 3, 'failures': fails,
             'rule': 'per execution: set_value bytes vs independent encoder (int.to_bytes / numpy), refusal without '
@@ -1407,6 +1693,9 @@ def replay(payload, ctx):
         case = {'kind': 'ext', 'cfg': c['cfg'], 'sched': c['sched']}
         rec = execute_ext(case, ctx.rng)
         fs = check_ext_run(case, rec)
+    elif c.get('kind') == 'race':
+        rec = execute_race(c, ctx.rng)
+        fs = check_race(c, rec)
     elif c.get('kind') == 'sess':
         recs = execute_sess(c, ctx.rng)
         fs = check_sess(c, recs)
